@@ -32,16 +32,18 @@ type Event struct {
 
 // Scenario = peers with behaviours + script of honest-side events.
 type Scenario struct {
-	Name     string
-	Len      int // initial honest chain length
-	Peers    []Behaviour
-	Addrs    []string // optional explicit addresses
-	Script   []Event
-	Deadline time.Duration // budget for the final convergence wait
-	Checkpts []int         // heights of block checkpoints set in the chain parameters
-	Parallel bool          // dial all peers at once instead of in listed order
-	Barrier  bool          // peers hold their first headers reply until every listed peer has connected
-	HoldCF   bool          // peer i+1 is dialled only after peer i has been asked for cfheaders (peer i alone at first)
+	Name       string
+	Len        int // initial honest chain length
+	Peers      []Behaviour
+	Addrs      []string // optional explicit addresses
+	Script     []Event
+	Deadline   time.Duration // budget for the final convergence wait
+	Checkpts   []int         // heights of block checkpoints set in the chain parameters
+	Parallel   bool          // dial all peers at once instead of in listed order
+	Barrier    bool          // peers hold their first headers reply until every listed peer has connected
+	ManualGate bool          // only peer 0 is dialled at the start; the scenario opens the other gates itself (OpenGate)
+	NoRedial   bool          // every peer can be dialled once: a peer the client dropped does not come back, nobody new joins
+	HoldCF     bool          // peer i+1 is dialled only after peer i has been asked for cfheaders (peer i alone at first)
 }
 
 // Sim is one running scenario.
@@ -112,6 +114,21 @@ func New(sc Scenario, rng *rand.Rand, out func(op, obs string)) (*Sim, error) {
 		addr := fmt.Sprintf("10.0.%d.%d:18444", i/200, 1+i%200)
 		if i < len(sc.Addrs) && sc.Addrs[i] != "" {
 			addr = sc.Addrs[i]
+		}
+		if b.Kind == "liarCFHeaders" && b.Variant == "consistent" && b.H <= sc.Len {
+			// the false filter must be refutable from the block: move the lie to a block
+			// that has more than its coinbase (with one honest and one lying peer nothing
+			// else can break the tie, and the client rightly waits for a majority)
+			for d := 0; d <= sc.Len; d++ {
+				if x := tip.Ancestor(int32(b.H + d)); x != nil && x.Height > 0 && len(x.Msg.Transactions) > 1 {
+					b.H += d
+					break
+				}
+				if x := tip.Ancestor(int32(b.H - d)); x != nil && x.Height > 0 && len(x.Msg.Transactions) > 1 {
+					b.H -= d
+					break
+				}
+			}
 		}
 		p := &Peer{Idx: i, Addr: addr, B: b, w: s.W, Release: make(chan struct{})}
 		switch b.Kind {
@@ -201,6 +218,9 @@ func (s *Sim) dial(a net.Addr) (net.Conn, error) {
 	if p == nil {
 		return nil, fmt.Errorf("no route to %s", a)
 	}
+	if s.Sc.NoRedial && atomic.LoadInt32(&p.Sessions) > 0 {
+		return nil, errors.New("connection refused")
+	}
 	if !s.Sc.Parallel {
 		select {
 		case <-s.gate[p.Idx]:
@@ -232,6 +252,9 @@ func (s *Sim) Start() error {
 	go func() {
 		defer s.wg.Done()
 		for i := range s.Peers {
+			if s.Sc.ManualGate && i > 0 {
+				break
+			}
 			s.openGate(i)
 			p := s.Peers[i]
 			dl := time.Now().Add(3 * time.Second)
@@ -249,6 +272,9 @@ func (s *Sim) Start() error {
 	}()
 	return nil
 }
+
+// OpenGate lets peer i be dialled (ManualGate scenarios).
+func (s *Sim) OpenGate(i int) { s.openGate(i) }
 
 func (s *Sim) openGate(i int) {
 	s.gateMu.Lock()
@@ -453,7 +479,7 @@ func (s *Sim) Run() {
 	// a short quiet period: nothing may move away from the converged state
 	s.waitFor(150*time.Millisecond, func(Obs) bool { return false })
 	o := s.Observe()
-	s.out("final", o.String()+" "+s.chainCheck())
+	s.out("final", o.String()+" "+s.chainCheck()+" sync "+s.syncPeer(o))
 	s.askedLines()
 }
 
@@ -507,6 +533,33 @@ func (s *Sim) getCFilter(h int32) string {
 	case <-time.After(6 * time.Second):
 		return "HANG"
 	}
+}
+
+// syncPeer names the block manager's sync peer relative to the peers that are
+// connected in observation o: none | <i> (connected peer i) | gone:<i> (peer i is
+// no longer connected) | unknown.
+func (s *Sim) syncPeer(o Obs) string {
+	addr := s.CS.VerifSyncPeerAddr()
+	if addr == "" {
+		return "none"
+	}
+	p := s.byAddr[addr]
+	if p == nil {
+		return "unknown"
+	}
+	// a peer counts as connected when the client lists it, or when its connection is
+	// still live on the node's side (the done event may be in flight)
+	for k := 0; k < 25; k++ {
+		if contains(o.Conn, p.Idx) {
+			return fmt.Sprint(p.Idx)
+		}
+		if s.CS.VerifSyncPeerAddr() != addr {
+			return s.syncPeer(s.Observe())
+		}
+		time.Sleep(20 * time.Millisecond)
+		o = s.Observe()
+	}
+	return fmt.Sprintf("gone:%d", p.Idx)
 }
 
 // chainCheck walks the stored chain by height and compares every block header
